@@ -34,7 +34,7 @@ def lib_check(cache):
     """The library's own check(), empty-directory warnings dropped."""
     import diskcache
     with warnings.catch_warnings():
-        warnings.simplefilter('ignore')
+        warnings.simplefilter('always')
         try:
             warns = cache.check()
         except Exception as exc:
